@@ -6,7 +6,7 @@
    action of the operator expression [e], [adjoint e] the expression the
    library returns as [e.adjoint].  The carrier is R (conj = id) or C = R*R. *)
 From Coq Require Import Reals List Bool.
-From Verif Require Import Base.Num Base.Vec C05.Model C05.Alg C05.Inst C05.Proofs.
+From Verif Require Import Base.Num Base.Vec C13.Syntax Gen.FiniteDiff C05.Model C05.Alg C05.Inst C05.Proofs.
 Import ListNotations.
 
 (* T1 (all trees, any depth and width): if the expression is well-formed (spaces of
@@ -34,3 +34,100 @@ Theorem expr_adjoint_sound_complex : forall e : oexpr (R * R), wf leaf_ok e ->
   dom (adjoint e) = ran e /\ ran (adjoint e) = dom e.
 Proof. exact (expr_adjoint_sound_flat cring_ok_C). Qed.
 Print Assumptions expr_adjoint_sound_complex.
+
+(* ------------------------------------------------------------------------
+   Built-in pairs.  Stated once for every carrier T that is a commutative ring
+   with an involution and a partial division ([cring_ok]); the two carriers
+   used, R with conj = id and C = R*R, satisfy the premise: *)
+From Verif Require Import C05.ProofsLeaf C05.ProofsR.
+Theorem carrier_real : cring_ok R.
+Proof. exact cring_ok_R. Qed.
+Theorem carrier_complex : cring_ok (R * R).
+Proof. exact cring_ok_C. Qed.
+
+(* [leaf_ok l] is, written out:
+     adjoint identity  <A x, y>_ran = <x, A* y>_dom  for all x, y of the right lengths,
+     A maps dom -> ran and A* maps ran -> dom (lengths), and the operator returned
+     as adjoint has the swapped spaces. *)
+Example leaf_ok_unfolded : forall (T : Type) (NT : Num T) (CT : Conj T) (l : leaf T),
+  leaf_ok l <->
+  ((forall x, length x = length (leaf_dom l) -> length (eval_leaf l x) = length (leaf_ran l)) /\
+   (forall y, length y = length (leaf_ran l) -> length (eval (leaf_adjoint l) y) = length (leaf_dom l)) /\
+   (forall x y, length x = length (leaf_dom l) -> length y = length (leaf_ran l) ->
+      cinner (leaf_ran l) (eval_leaf l x) y = cinner (leaf_dom l) x (eval (leaf_adjoint l) y))) /\
+  dom (leaf_adjoint l) = leaf_ran l /\ ran (leaf_adjoint l) = leaf_dom l.
+Proof. intros; reflexivity. Qed.
+
+Section Builtins.
+Context {T : Type} {NT : Num T} {CT : Conj T}.
+Hypothesis OK : cring_ok T.
+
+(* T1: ScalingOperator / IdentityOperator -- any weights, any (complex) scalar; adjoint scales by conj(s) *)
+Theorem scaling_adjoint : forall (w : list T) (s : T), leaf_ok (LScaling w s).
+Proof. exact (leaf_ok_scaling OK). Qed.
+(* T1: MultiplyOperator(v) on v.space -- any diagonal weights; adjoint multiplies by conj(v) *)
+Theorem multiply_adjoint : forall w v : list T, length v = length w -> leaf_ok (LMultiply w v).
+Proof. exact (leaf_ok_multiply OK). Qed.
+(* T1: InnerProductOperator(v) <-> MultiplyOperator(v, domain=field) -- any (real) weights *)
+Theorem innerproduct_adjoint : forall w v : list T, length v = length w -> leaf_ok (LInner w v).
+Proof. exact (leaf_ok_inner OK). Qed.
+Theorem multiply_field_adjoint : forall w v : list T, length v = length w -> vconj w = w -> leaf_ok (LMulField w v).
+Proof. exact (leaf_ok_mulfield OK). Qed.
+(* T1: ZeroOperator between any two spaces *)
+Theorem zero_adjoint : forall wd wr : list T, leaf_ok (LZero wd wr).
+Proof. exact (leaf_ok_zero OK). Qed.
+
+(* MatrixOperator.adjoint is the plain conjugate transpose between the swapped spaces.
+   FULL STATEMENT (false, see matrix_adjoint_refuted below):
+     forall wd wr M, rect (length wd) M -> length M = length wr -> leaf_ok (LMatrix wd wr M).
+   _partial: exactly when both spaces carry the same constant weight c (c = 1: unweighted),
+   for every matrix shape m x n and all entries. *)
+Theorem matrix_adjoint_partial : forall (c : T) (n m : nat) (M : list (list T)),
+  rect n M -> length M = m -> leaf_ok (LMatrix (repeat c n) (repeat c m) M).
+Proof. exact (leaf_ok_matrix_const OK). Qed.
+
+(* SamplingOperator / WeightedSumSamplingOperator: every index list (repetitions allowed),
+   both variants.  FULL STATEMENT (false): for every domain weight list wd.
+   _partial: when every domain weight equals the constant cv the code reads from
+   `getattr(domain, 'cell_volume', 1.0)` (uniform_discr without boundary nodes; unweighted rn). *)
+Theorem sampling_adjoint_partial : forall (cv : T) (n : nat) (idx : list nat) (integrate : bool),
+  Forall (fun i => (i < n)%nat) idx -> nconj cv = cv -> cv <> nzero ->
+  leaf_ok (LSampling (repeat cv n) idx integrate cv).
+Proof. exact (leaf_ok_sampling OK). Qed.
+Theorem weighted_sum_sampling_adjoint_partial : forall (cv : T) (n : nat) (idx : list nat) (dirac : bool),
+  Forall (fun i => (i < n)%nat) idx -> nconj cv = cv -> cv <> nzero ->
+  leaf_ok (LWSum (repeat cv n) idx dirac cv).
+Proof. exact (leaf_ok_wsum OK). Qed.
+(* FlatteningOperator (any order = any index permutation) and its inverse; same precondition *)
+Theorem flattening_adjoint_partial : forall (cv : T) (n : nat) (perm : list nat),
+  Forall (fun i => (i < n)%nat) perm -> nconj cv = cv -> cv <> nzero ->
+  leaf_ok (LFlatten (repeat cv n) perm cv).
+Proof. exact (leaf_ok_flatten OK). Qed.
+Theorem flattening_inverse_adjoint_partial : forall (cv : T) (n : nat) (perm : list nat),
+  Forall (fun i => (i < n)%nat) perm -> nconj cv = cv -> leaf_ok (LUnflatten (repeat cv n) perm cv).
+Proof. exact (leaf_ok_unflatten OK). Qed.
+End Builtins.
+Print Assumptions scaling_adjoint.
+Print Assumptions matrix_adjoint_partial.
+Print Assumptions sampling_adjoint_partial.
+Print Assumptions flattening_adjoint_partial.
+
+(* ------------------------------------------------------------------------
+   The full statement is FALSE of the faithful model on non-uniformly weighted
+   spaces (recorded findings; witnesses by computation at R). *)
+Local Open Scope R_scope.
+Theorem matrix_adjoint_refuted : identity_fails (LMatrix [1; 2] [1; 2] [[0; 1]; [0; 0]]).
+Proof. exact matrix_array_weighted_refuted. Qed.
+Theorem matrix_adjoint_other_range_refuted : identity_fails (LMatrix [1] [2] [[1]]).
+Proof. exact matrix_weighted_refuted. Qed.
+Theorem sampling_adjoint_const_weight_refuted : identity_fails (LSampling [2] [0%nat] false 1).
+Proof. exact sampling_weighted_refuted. Qed.
+Theorem sampling_adjoint_nodes_on_bdry_refuted : identity_fails (LSampling [1/2; 1; 1/2] [0%nat] false 1).
+Proof. exact sampling_bdry_refuted. Qed.
+Theorem flattening_adjoint_refuted : identity_fails (LFlatten [2] [0%nat] 1).
+Proof. exact flatten_weighted_refuted. Qed.
+Theorem component_projection_adjoint_refuted : identity_fails (LProj [[1]; [1]] [2; 3] 0).
+Proof. exact proj_weighted_refuted. Qed.
+Theorem partial_derivative_nodes_on_bdry_refuted :
+  identity_fails (LPDeriv [1/2; 1; 1/2] [1/2; 1; 1/2] [3%nat] 0 Forward PConstant 1).
+Proof. exact pderiv_bdry_refuted. Qed.
